@@ -88,9 +88,13 @@ CHECKS = {
  "C19": ("proof", "Theorems in coq/Props/C19.v: C19_contiguous -- if an adjacent group (members that keep their scope: flags, arguments, "
          "positionals, optional/guard/parse/map, construct!) yields a value there is ONE interval [a,b) such that every "
          "available item in it is consumed, nothing outside it is consumed and the enclosing scope is restored; the block "
-         "starts at the start offset that succeeded; windows are runs of live items; the retry loop's return condition. Nested "
-         "adjacent groups / commands inside groups are outside the hypothesis (tie only). Block order and full conformance are "
-         "decided by the oracle (unique sentinels, span check) and the differential run." + DIFF,
+         "starts at the start offset that succeeded; windows are runs of live items; the retry loop's return condition; start "
+         "offsets are tried left to right and the value comes from the FIRST one at which the group parses (C19_first_start_wins, "
+         "C19_starts_left_to_right), so repeating the group yields the blocks in command-line order. The member class "
+         "(C19_members_inscope) covers flags, arguments, positionals and `any` under optional/many/some/count/last/fallback/"
+         "guard/parse/map/hide, construct! and alternatives. Nested "
+         "adjacent groups / commands inside groups are outside the hypothesis (tie only). Full conformance is "
+         "decided by the oracle (unique sentinels, span check, accepted block lines) and the differential run." + DIFF,
          "4/C19", "Rocq proof (block theorem by induction over the retry loop) over a hand-written model + differential correspondence + span oracle"),
  "C13": ("proof", "Theorems in coq/Props/C13.v about a transcription of splitter.rs + console.rs (characters, byte lengths, margins, "
          "pending flags, skip counter, trailing-whitespace trimming): C13_content -- for EVERY document, both forms and ANY two "
